@@ -185,7 +185,7 @@ def run(ctx: Ctx):
                     invariants=("Reported", "Stopped", "NoRequestOnClose", "NoRequestUnregistered"), properties=("CallsEnd",),
                     required_actions=("IssueCmd", "SendOk", "SendFails", "Exhaust", "Reply", "CmdTimeoutFires", "FailNow", "Close"), workers=8)
     cases = []
-    vers = (8, 4) if ctx.quick else (8, 4, 13, 14)
+    vers = (8, 4) if ctx.quick else tuple(range(4, 15))
     # reference runs give the number of wire events per workload
     refs = {}
     for ver in vers:
